@@ -94,6 +94,15 @@ def run(ctx, rep, tier):
     g = cfg_of(f)
     pushes = [x for x in walk(l["body"]) if x.get("kind") == "CXXMemberCallExpr" and callee_info(x)["name"] in ("push_back", "emplace_back")
               and canon(callee_info(x)["obj"])[0] == "var" and canon(callee_info(x)["obj"])[2] == "expansions"]
+    if not pushes:
+        # name-free fallback: pushes into the vector the function returns
+        rets = [canon(children(y)[0]) for y in walk(f.body) if y.get("kind") == "ReturnStmt" and children(y)]
+        rv = rets[-1] if rets else None
+        pushes = [x for x in walk(l["body"]) if x.get("kind") == "CXXMemberCallExpr" and callee_info(x)["name"] in ("push_back", "emplace_back")
+                  and rv is not None and canon(callee_info(x)["obj"]) == rv]
+    if not pushes:
+        rep.unknown("G16", l["stmt"], f, "expansion factors", "no push into the returned vector inside the cell loop (shape changed)")
+        return
     incn = g.node_for(l["inc"])
     # exactly one push on every path: each path body-entry -> increment crosses exactly one push:
     # (a) the increment is not reachable from the loop head when all pushes are removed, (b) no push reaches another push without passing the increment
